@@ -195,6 +195,23 @@ pub fn c11w(ctx: &Ctx, begin: &mut dyn FnMut(J)) -> Outcome {
             }
         }
         c.input.sort_by(|a, b| a.0.name.as_bytes().cmp(b.0.name.as_bytes()));
+        // heavy chromosomes of uneven size (several BufWriter flushes each), the first the largest
+        for (ci, (ch, ents)) in c.input.iter_mut().enumerate() {
+            let target = if ci == 0 { 1500 } else { r.range(100, 900) as usize / (1 + (ci % 3)) };
+            ch.size = ch.size.max(target as u32 * 6 + 100);
+            let mut v = vec![];
+            let mut pos = 0u32;
+            while v.len() < target && pos + 40 < ch.size {
+                let len = r.range(1, 30) as u32;
+                v.push(bigtools::BedEntry { start: pos, end: pos + len, rest: gen_rest(&mut r, 3) });
+                pos += r.below(6) as u32;
+            }
+            *ents = v;
+        }
+        if r.chance(1, 2) {
+            c.opts.compress = false;
+        }
+        c.opts.items_per_slot = *r.pick(&[5u32, 16, 64, 1024]);
         c.opts.sort_all = true;
         (None, Some(c.input), c.opts)
     };
@@ -333,11 +350,22 @@ pub fn c11c(ctx: &Ctx, begin: &mut dyn FnMut(J)) -> Outcome {
             let policy = r.below(5) as usize;
             hooks::set_policy(policy, ctx.seed ^ (ctx.case * 77 + i as u64), false);
             let p2 = wr::scratch_file(&ctx.scratch, "mt.bedGraph");
+            let on_disk = i % 2 == 1;
+            let p3 = wr::scratch_file(&ctx.scratch, "in.bw");
             let res = wr::guard(|| -> Result<Vec<u8>, String> {
-                let rd = BigWigRead::open(CountingCursor::new(bytes.clone())).map_err(|e| e.to_string())?;
-                write_bg(rd, std::fs::File::create(&p2).map_err(|e| format!("HARNESS {}", e))?, inmem, n).map_err(|e| e.to_string())?;
+                if on_disk {
+                    // the tools' own path: a ReopenableFile reader, reopened once per chromosome task
+                    std::fs::write(&p3, &bytes[..]).map_err(|e| format!("HARNESS {}", e))?;
+                    let rd = BigWigRead::open_file(&p3).map_err(|e| e.to_string())?;
+                    write_bg(rd, std::fs::File::create(&p2).map_err(|e| format!("HARNESS {}", e))?, inmem, n).map_err(|e| e.to_string())?;
+                } else {
+                    let rd = BigWigRead::open(CountingCursor::new(bytes.clone())).map_err(|e| e.to_string())?;
+                    write_bg(rd, std::fs::File::create(&p2).map_err(|e| format!("HARNESS {}", e))?, inmem, n).map_err(|e| e.to_string())?;
+                }
                 Ok(read_file(&p2))
             });
+            let _ = std::fs::remove_file(&p3);
+            out.tag(if on_disk { "reader=ReopenableFile" } else { "reader=in_memory" });
             hooks::set_policy(0, 0, false);
             let _ = std::fs::remove_file(&p2);
             out.count("converter_runs", 1);
@@ -389,11 +417,21 @@ pub fn c11c(ctx: &Ctx, begin: &mut dyn FnMut(J)) -> Outcome {
             let policy = r.below(5) as usize;
             hooks::set_policy(policy, ctx.seed ^ (ctx.case * 77 + i as u64), false);
             let p2 = wr::scratch_file(&ctx.scratch, "mt.bed");
+            let on_disk = i % 2 == 1;
+            let p3 = wr::scratch_file(&ctx.scratch, "in.bb");
             let res = wr::guard(|| -> Result<Vec<u8>, String> {
-                let rd = BigBedRead::open(CountingCursor::new(bytes.clone())).map_err(|e| e.to_string())?;
-                write_bed(rd, std::fs::File::create(&p2).map_err(|e| format!("HARNESS {}", e))?, inmem, n).map_err(|e| e.to_string())?;
+                if on_disk {
+                    std::fs::write(&p3, &bytes[..]).map_err(|e| format!("HARNESS {}", e))?;
+                    let rd = BigBedRead::open_file(&p3).map_err(|e| e.to_string())?;
+                    write_bed(rd, std::fs::File::create(&p2).map_err(|e| format!("HARNESS {}", e))?, inmem, n).map_err(|e| e.to_string())?;
+                } else {
+                    let rd = BigBedRead::open(CountingCursor::new(bytes.clone())).map_err(|e| e.to_string())?;
+                    write_bed(rd, std::fs::File::create(&p2).map_err(|e| format!("HARNESS {}", e))?, inmem, n).map_err(|e| e.to_string())?;
+                }
                 Ok(read_file(&p2))
             });
+            let _ = std::fs::remove_file(&p3);
+            out.tag(if on_disk { "reader=ReopenableFile" } else { "reader=in_memory" });
             hooks::set_policy(0, 0, false);
             let _ = std::fs::remove_file(&p2);
             out.count("converter_runs", 1);
